@@ -217,7 +217,10 @@ theorem cinv_step {s s' : CState} {l : Label} (h : CInv s) (hs : cstep s l = som
                 subst hp
                 right
                 refine ⟨rfl, e, hg, ?_⟩
-                simpa using hcond
+                have hc2 : c.isReset = true ∨ expiredAt c.now0 e = true := by simpa using hcond
+                rcases hc2 with h1 | h1
+                · exact Or.inl h1
+                · exact Or.inr (by simpa [expiredAt] using h1)
             · exact ⟨rfl, rfl, rfl, rfl, fun p hp => Or.inl hp⟩
           · exact ⟨rfl, rfl, rfl, rfl, fun p hp => Or.inl hp⟩
         -- every updated cleaner relates to an old one
